@@ -2,6 +2,7 @@
 use lelwel::frontend::lexer::tokenize;
 use lelwel::frontend::parser::{Cst, Node, NodeRef, Parser};
 use lelwel::frontend::sema::SemanticPass;
+use lelwel::frontend::ast::{self, AstNode, Named};
 use std::io::BufRead;
 
 fn lexeme(kind: &str) -> &'static str {
@@ -26,6 +27,57 @@ fn walk(cst: &Cst<'_>, n: NodeRef, out: &mut String) {
         }
         Node::Token(t, _) => out.push_str(&format!("[\"T\",\"{t:?}\",{},{}]", sp.start, sp.end)),
     }
+}
+fn pos(o: Option<(&str, std::ops::Range<usize>)>) -> String { match o { Some((_, sp)) => format!("{}", sp.start), None => "null".to_string() } }
+fn regex(cst: &Cst<'_>, r: ast::Regex, out: &mut String) {
+    use ast::Regex::*;
+    match r {
+        OrderedChoice(x) => { out.push_str("[\"ordered_choice\",["); let mut f = true; for o in x.operands(cst) { if !f { out.push(','); } f = false; regex(cst, o, out); } out.push_str("]]"); }
+        Alternation(x) => { out.push_str("[\"alternation\",["); let mut f = true; for o in x.operands(cst) { if !f { out.push(','); } f = false; regex(cst, o, out); } out.push_str("]]"); }
+        Concat(x) => { out.push_str("[\"concat\",["); let mut f = true; for o in x.operands(cst) { if !f { out.push(','); } f = false; regex(cst, o, out); } out.push_str("]]"); }
+        Paren(x) => { out.push_str("[\"paren\","); match x.inner(cst) { Some(i) => regex(cst, i, out), None => out.push_str("null") } out.push(']'); }
+        Optional(x) => { out.push_str("[\"optional\","); match x.operand(cst) { Some(i) => regex(cst, i, out), None => out.push_str("null") } out.push(']'); }
+        Star(x) => { out.push_str("[\"star\","); match x.operand(cst) { Some(i) => regex(cst, i, out), None => out.push_str("null") } out.push(']'); }
+        Plus(x) => { out.push_str("[\"plus\","); match x.operand(cst) { Some(i) => regex(cst, i, out), None => out.push_str("null") } out.push(']'); }
+        Name(x) => out.push_str(&format!("[\"leaf\",\"name\",{}]", pos(x.value(cst)))),
+        Symbol(x) => out.push_str(&format!("[\"leaf\",\"symbol\",{}]", pos(x.value(cst)))),
+        Predicate(x) => out.push_str(&format!("[\"leaf\",\"predicate\",{}]", pos(x.value(cst)))),
+        Action(x) => out.push_str(&format!("[\"leaf\",\"action\",{}]", pos(x.value(cst)))),
+        Assertion(x) => out.push_str(&format!("[\"leaf\",\"assertion\",{}]", pos(x.value(cst)))),
+        NodeRename(x) => out.push_str(&format!("[\"leaf\",\"node_rename\",{}]", pos(x.value(cst)))),
+        NodeMarker(x) => out.push_str(&format!("[\"leaf\",\"node_marker\",{}]", pos(x.value(cst)))),
+        NodeCreation(x) => out.push_str(&format!("[\"leaf\",\"node_creation\",{}]", pos(x.value(cst)))),
+        NodeElision(_) => out.push_str("[\"leaf\",\"node_elision\",null]"),
+        Commit(_) => out.push_str("[\"leaf\",\"commit\",null]"),
+        Return(_) => out.push_str("[\"leaf\",\"return\",null]"),
+    }
+}
+fn view(cst: &Cst<'_>, out: &mut String) {
+    let Some(file) = ast::File::cast(cst, NodeRef::ROOT) else { out.push_str("null"); return; };
+    out.push_str("{\"tokens\":[");
+    let mut f = true;
+    for t in file.token_decls(cst) { if !f { out.push(','); } f = false; out.push_str(&format!("[{},{}]", pos(t.name(cst)), pos(t.symbol(cst)))); }
+    out.push_str("],\"rules\":[");
+    f = true;
+    for r in file.rule_decls(cst) {
+        if !f { out.push(','); } f = false;
+        out.push_str(&format!("[{},{},", pos(r.name(cst)), r.is_elided(cst)));
+        match r.regex(cst) { Some(x) => regex(cst, x, out), None => out.push_str("null") }
+        out.push(']');
+    }
+    out.push_str("],\"starts\":[");
+    f = true;
+    for s in file.start_decls(cst) { if !f { out.push(','); } f = false; out.push_str(&pos(s.rule_name(cst))); }
+    out.push_str("],\"rights\":[");
+    f = true;
+    for d in file.right_decls(cst) { if !f { out.push(','); } f = false; let mut v = vec![]; d.token_names(cst, |(_, sp)| v.push(sp.start.to_string())); out.push_str(&format!("[{}]", v.join(","))); }
+    out.push_str("],\"skips\":[");
+    f = true;
+    for d in file.skip_decls(cst) { if !f { out.push(','); } f = false; let mut v = vec![]; d.token_names(cst, |(_, sp)| v.push(sp.start.to_string())); out.push_str(&format!("[{}]", v.join(","))); }
+    out.push_str("],\"parts\":[");
+    f = true;
+    for d in file.part_decls(cst) { if !f { out.push(','); } f = false; let mut v = vec![]; d.rule_names(cst, |(_, sp)| v.push(sp.start.to_string())); out.push_str(&format!("[{}]", v.join(","))); }
+    out.push_str("]}");
 }
 fn main() {
     for line in std::io::stdin().lock().lines() {
@@ -68,6 +120,8 @@ fn main() {
             }
             out.push_str("],\"walk\":");
             walk(&cst, NodeRef::ROOT, &mut out);
+            out.push_str(",\"view\":");
+            view(&cst, &mut out);
             let nparse = diags.len();
             let sema = std::panic::catch_unwind(std::panic::AssertUnwindSafe(|| { let mut d2 = diags; let _ = SemanticPass::run(&cst, &mut d2); d2 }));
             match sema {
